@@ -48,6 +48,8 @@ pub broadcast axiom fn axiom_century_ahead()
 pub open spec fn sat_deadline(d: Duration) -> int {
     if spec_now() + dur_nanos(d) <= instant_max() { spec_now() + dur_nanos(d) } else { spec_now() + 3_153_600_000int * 1_000_000_000 }
 }
+/// elapsed time since an instant: unconstrained (reads the clock)
+pub assume_specification[ Instant::elapsed ](i: &Instant) -> (r: Duration);
 pub assume_specification[ Duration::is_zero ](d: &Duration) -> (r: bool)
     ensures r == (dur_nanos(*d) == 0);
 pub assume_specification[ Duration::from_secs ](s: u64) -> (r: Duration)
